@@ -232,6 +232,8 @@ def plan(tier):
         k = 3 if tier == 'quick' else 4
         units.append(('tokens', npairs, k))
     units.append(('prefix',))
+    for lo in range(0, 256, 32):
+        units.append(('line-start', lo, lo + 32))
     units.append(('contexts',))
     units.append(('scale',))
     for lo in range(0, 256, 16):
@@ -244,7 +246,9 @@ def plan(tier):
                 'pairs of 12 keys x 5 "=" variants x 22 values x 6 pair '
                 'separators x 5 trailers with a bounded number of '
                 'non-default tokens (1 pair: full product); (c) "#", 0-4 '
-                'dots, 10 names, ":" present/doubled/missing/spaced; (d) the '
+                'dots, 10 names, ":" present/doubled/missing/spaced; every '
+                'byte, byte pair, codec signature (BOM) and signature-byte '
+                'triple before the "#" of the first and of a later header; (d) the '
                 'same option strings on every legal header kind; (e) every byte '
                 'value 0..255 in every grammatical position and every pair of '
                 'byte values as a value / key tail. Each '
@@ -381,6 +385,48 @@ def _run_unit(unit, tier, acc):
                     one(b'#.change: ' + tok + b'=v')
                     one(b'#.change: a=b, id=' + tok + b', c=d')
         acc.sample({'scale': 'option values / keys / counts of 9..65537'}, 1)
+    elif unit[0] == 'line-start':
+        # what may precede the "#": nothing. Every byte, every pair of
+        # bytes, every codec's signature (BOM) and every triple / quadruple
+        # over the bytes signatures are made of, before the first header of
+        # the file and before a later header
+        import codecs as _codecs
+        sigs = set()
+        for n in ('utf-8-sig', 'utf-16', 'utf-16-le', 'utf-16-be', 'utf-32',
+                  'utf-32-le', 'utf-32-be', 'utf-7', 'gb18030', 'utf-1'):
+            try:
+                sigs.add('\ufeff'.encode(n))
+                sigs.add(''.encode(n))
+            except Exception:
+                pass
+        sigs |= {_codecs.BOM_UTF8, _codecs.BOM_UTF16_LE, _codecs.BOM_UTF16_BE,
+                 _codecs.BOM_UTF32_LE, _codecs.BOM_UTF32_BE}
+        sigs.discard(b'')
+        pres = []
+        for a in range(unit[1], unit[2]):
+            pres.append(bytes([a]))
+            for b in range(256):
+                pres.append(bytes([a, b]))
+        if unit[1] == 0:
+            pres += sorted(sigs)
+            sb = [0xEF, 0xBB, 0xBF, 0xFE, 0xFF, 0x00, 0x20, 0x09, 0x0D, 0x2B,
+                  0x2F, 0x76]
+            for t in itertools.product(sb, repeat=3):
+                pres.append(bytes(t))
+            for t in itertools.product([0xFF, 0xFE, 0x00, 0xEF], repeat=4):
+                pres.append(bytes(t))
+        for pre in pres:
+            if b'\n' in pre:
+                continue
+            one(pre + b'#diffx: version=1.0',
+                {'context': to_jsonable(b''), 'index': 0},
+                context=b'', index=0)
+            one(pre + b'#.change:')
+            if len(pre) != 2:
+                one(pre + b'#diffx: version=1.0',
+                    {'context': to_jsonable(b'\n\n'), 'index': 0},
+                    context=b'\n\n', index=0)
+        acc.sample({'line_start_prefix': repr(pres[-1])}, 1)
     elif unit[0] == 'prefix':
         for hashes in (b'#', b'', b'##', b' #'):
             for dots in range(0, 5):
